@@ -1827,8 +1827,9 @@ class HDKey(Key):
                     script_type = kf['script_types'][0]
                 if len(kf['witness_types']) == 1 and not witness_type:
                     witness_type = kf['witness_types'][0]
-                if len(kf['multisig']) == 1:
-                    multisig = kf['multisig'][0]
+                if len(kf['multisig']) == 1 and kf['multisig'][0]:
+                    # Formats that do not encode it report [False]: keep the flag the caller supplied
+                    multisig = True
                 network = Network(check_network_and_key(import_key, network, kf["networks"]))
                 if kf['format'] in ['hdkey_private', 'hdkey_public']:
                     bkey = change_base(import_key, 58, 256)
